@@ -99,6 +99,25 @@ class Event:
         return None if a is None else norm(a)
 
 
+def clone_ast(n):
+    """Structural copy of an AST subtree (fields and positions only; `_parent` back-links are NOT followed - a
+    deepcopy through them copies the whole module).  `_origin` marks are kept by reference."""
+    if isinstance(n, list):
+        return [clone_ast(x) for x in n]
+    if not isinstance(n, ast.AST):
+        return n
+    m = n.__class__()
+    for fld in n._fields:
+        if hasattr(n, fld):
+            setattr(m, fld, clone_ast(getattr(n, fld)))
+    for a in ('lineno', 'col_offset', 'end_lineno', 'end_col_offset'):
+        if hasattr(n, a):
+            setattr(m, a, getattr(n, a))
+    if hasattr(n, '_origin'):
+        m._origin = n._origin
+    return m
+
+
 class Path:
     def __init__(self):
         self.events = []
@@ -696,7 +715,7 @@ class PathSim:
 
     # -- assignment ---------------------------------------------------------------------------
     def _as_load(self, t):
-        t2 = copy.deepcopy(t)
+        t2 = clone_ast(t)
         for x in ast.walk(t2):
             if hasattr(x, 'ctx'):
                 x.ctx = ast.Load()
@@ -799,7 +818,7 @@ class PathSim:
                     if isinstance(x, ast.Lambda):
                         for a in x.args.args:
                             bound.add(a.arg)
-                n2 = copy.deepcopy(n)
+                n2 = clone_ast(n)
 
                 class T(ast.NodeTransformer):
                     def visit_Name(self_, x):
@@ -1566,7 +1585,7 @@ def deep_norm(sym):
     class T(ast.NodeTransformer):
         def visit_Name(self, x):
             o = getattr(x, '_origin', None)
-            return self.visit(copy.deepcopy(o)) if o is not None else x
+            return self.visit(clone_ast(o)) if o is not None else x
     if sym is None:
         return 'None'
-    return norm(T().visit(copy.deepcopy(sym)))
+    return norm(T().visit(clone_ast(sym)))
